@@ -219,7 +219,8 @@ def establish(pre, t_tree=None, s_tree=None):
                 return R.zeros(per[i]["s"]) if isvar else R.zeros((per[i],))
             return struct_to_tree(dict(s, c=[])) if not s["c"] else _rebuild(s, [fill(c) for c in s["c"]])
         tree = fill(struct)
-        ann = R.array_ann(("*?" if isvar else "?") + ax)
+        bc = isvar and all(v["b"] for v in per.values())      # broadcastable per-leaf bindings (all or none)
+        ann = R.array_ann((("#*?" if bc else "*?") if isvar else "?") + ax)
         ok &= isinstance(tree, st["PyTree"][ann, sname])
         done.add(sname)
     for nm, struct in pre["pytree"].items():
